@@ -107,7 +107,7 @@ NEED_CLASSES = [
     "musig:session", "musig:session:adaptor", "musig:session:mixed-implementations", "musig:session:deterministic-signer",
     "musig:session:duplicate-keys", "musig:session:single-signer", "musig:keyagg:permutation", "musig:msg-len:0", "musig:msg-len:32",
     "musig:msg-len:other", "musig:tweak:xonly-negating", "musig:tweak:plain", "musig:tweak:none", "musig:nonce:nonce_gen",
-    "musig-psbt:output-key", "musig-psbt:taproot-tweak", "musig-psbt:bip328-derivation",
+    "musig-psbt:output-key", "musig-psbt:taproot-tweak", "musig-psbt:bip328-derivation", "musig-psbt:script-path",
     "ecdh:catalogued", "ecdh:toy", "ecdh:hkdf", "ellswift:lib-encoding", "ellswift:reference-encoding", "ellswift:xdh", "ellswift:other-curve",
     "ecies:roundtrip", "ecies:wrong-key", "ecies:tampered", "ecies:reference-envelope", "dleq:own-proof", "dleq:altered",
     "pedersen:commit", "borromean:sign", "s2c:commit",
@@ -668,14 +668,14 @@ def shard_musig_psbt(ctx: Ctx) -> None:
     ArmRecorder(ctx).install()
     rng = ctx.rng
     pool = _pool(rng, 16)
-    modes = ["output-key", "taproot-tweak", "taproot-tweak-with-tree", "bip328-derivation"]
+    modes = ["output-key", "taproot-tweak", "taproot-tweak-with-tree", "bip328-derivation", "script-path"]
     try:
         for it in range(ctx.params["flows"]):
             if ctx.out_of_time():
                 ctx.notes.append(f"{ctx.shard}: budget reached after {it} flows")
                 break
-            mode = modes[it % 4]
-            k = 1 + (it // 4) % 4
+            mode = modes[it % 5]
+            k = 1 + (it // 5) % 4
             idx = rng.sample(range(len(pool)), k)
             # no duplicate participants here: BIP373 files nonces and partial signatures under the participant key,
             # so two signers sharing one key cannot both be represented (duplicates are exercised in shard_musig)
@@ -684,7 +684,7 @@ def shard_musig_psbt(ctx: Ctx) -> None:
             pks = [x.pk for x in keys]
             # ... but one *signer* may hold several slots of the participant list (BIP327 allows a repeated key): it makes
             # one nonce and one partial signature, and both are counted once per slot it holds
-            if it % 5 == 4 and k >= 1:
+            if it % 7 == 6 and k >= 1:
                 for _ in range(rng.choice([1, 1, 2])):
                     pks.insert(rng.randrange(len(pks) + 1), rng.choice(keys).pk)
                 ctx.stat("musig-psbt:repeated-participant-key")
@@ -694,8 +694,25 @@ def shard_musig_psbt(ctx: Ctx) -> None:
             fields: dict = {}
             tweaks_ref, flags_ref = [], []
             path = []
+            leaf_hash, leaf_script, control = b"", b"", b""
             if mode == "output-key":
                 out_pt = kac.Q
+            elif mode == "script-path":
+                # BIP373's fourth way: the aggregate key is a key of a leaf script, untweaked; the internal key is somebody else's
+                other = rng.choice([x for x in pool if x.pk not in pks] or pool)
+                ik = other.pk[1:]
+                leaf_script = b"\x20" + rk.xbytes(kac.Q) + b"\xac"
+                leaf_hash = r340.tagged_hash("TapLeaf", b"\xc0" + bytes([len(leaf_script)]) + leaf_script)
+                sib = rng.randbytes(32) if rng.random() < 0.5 else b""
+                mr = r340.tagged_hash("TapBranch", b"".join(sorted([leaf_hash, sib]))) if sib else leaf_hash
+                tt = r340.tagged_hash("TapTweak", ik + mr)
+                if int.from_bytes(tt, "big") >= N:
+                    continue
+                out_pt = EC.add(EC.lift_x(int.from_bytes(ik, "big")), EC.mul_nored(int.from_bytes(tt, "big"), G))
+                control = bytes([0xC0 | (out_pt[1] & 1)]) + ik + sib
+                fields["taproot_internal_key"] = ik
+                fields["taproot_merkle_root"] = mr
+                fields["taproot_leaf_scripts"] = {control: (leaf_script, 0xC0)}
             else:
                 internal = kac.Q
                 if mode == "bip328-derivation":
@@ -722,7 +739,7 @@ def shard_musig_psbt(ctx: Ctx) -> None:
             outkey = rk.xbytes(out_pt)
             # the spent key by BIP327 itself: aggregate, plain tweaks, x-only taproot tweak
             rctx = rk.key_agg_and_tweak(agg_order, tweaks_ref, flags_ref)
-            if rk.xbytes(rctx.Q) != outkey:
+            if mode != "script-path" and rk.xbytes(rctx.Q) != outkey:
                 ctx.oracle_broken("bip327/bip341/bip328 references disagree on the output key", mode)
                 continue
             amount = rng.randrange(1000, 10**8)
@@ -769,16 +786,16 @@ def shard_musig_psbt(ctx: Ctx) -> None:
                 nonlocal psbt
                 if separate:
                     copies = [Psbt.parse(psbt.serialize()) for _ in keys]
-                    secs = [pm.nonce_gen(c, 0, x.sk, agg, extra_in=rng.choice([None, b"x"])) for c, x in zip(copies, keys)]
+                    secs = [pm.nonce_gen(c, 0, x.sk, agg, leaf_hash=leaf_hash, extra_in=rng.choice([None, b"x"])) for c, x in zip(copies, keys)]
                     merged = combine(copies)
                     copies = [Psbt.parse(merged.serialize()) for _ in keys]
                     for c, x, sn in zip(copies, keys, secs):
-                        pm.partial_sign(c, 0, sn, x.sk, agg)
+                        pm.partial_sign(c, 0, sn, x.sk, agg, leaf_hash=leaf_hash)
                     psbt = combine(copies)
                 else:
-                    secs = [pm.nonce_gen(psbt, 0, x.sk, agg) for x in keys]
+                    secs = [pm.nonce_gen(psbt, 0, x.sk, agg, leaf_hash=leaf_hash) for x in keys]
                     for x, sn in zip(keys, secs):
-                        pm.partial_sign(psbt, 0, sn, x.sk, agg)
+                        pm.partial_sign(psbt, 0, sn, x.sk, agg, leaf_hash=leaf_hash)
                 return True
 
             o = outcome(rounds)
@@ -787,22 +804,44 @@ def shard_musig_psbt(ctx: Ctx) -> None:
                 continue
             d["psbt"] = psbt.serialize().hex()
             for x in keys:
-                o = outcome(pm.partial_sig_verify, psbt, 0, x.pk, agg)
+                o = outcome(pm.partial_sig_verify, psbt, 0, x.pk, agg, leaf_hash=leaf_hash)
                 ctx.mon("musig:partial-sig:library-verify")
                 if o[0] == "raise" or o[1] is not True:
                     fail("musig-psbt:honest-partial-sig-rejected", f"psbt.musig2.partial_sig_verify -> {o[1]!r} for {x.pk.hex()}")
-            msg = outcome(taproot_sig_hash, psbt, 0)
+            msg = outcome(taproot_sig_hash, psbt, 0, leaf_hash=leaf_hash)
             spent = outcome(prevouts, psbt)
-            o = outcome(pm.partial_sigs_agg, psbt, 0, agg)
+            o = outcome(pm.partial_sigs_agg, psbt, 0, agg, leaf_hash=leaf_hash)
             if o[0] == "raise" or msg[0] == "raise" or spent[0] == "raise":
                 e = o[1] if o[0] == "raise" else (msg[1] if msg[0] == "raise" else spent[1])
                 fail(f"musig-psbt:honest-aggregation-raised:{_exc_tag(e)}", f"partial_sigs_agg / taproot_sig_hash raised {e!r}")
                 continue
             sig64 = o[1].serialize()
             ctx.mon("musig-psbt:aggregate:bip340-reference")
-            if not r340.schnorr_verify(msg[1], outkey, sig64):
-                fail("musig-psbt:aggregate-not-a-bip340-signature", "aggregate signature invalid under the spent output key (BIP340 reference)",
-                     signature=sig64.hex(), msg=msg[1].hex(), output_key=outkey.hex())
+            verkey = rk.xbytes(kac.Q) if mode == "script-path" else outkey
+            if not r340.schnorr_verify(msg[1], verkey, sig64):
+                fail("musig-psbt:aggregate-not-a-bip340-signature", "aggregate signature invalid under the key the spend checks it against (BIP340 reference)",
+                     signature=sig64.hex(), msg=msg[1].hex(), key=verkey.hex())
+            if mode == "script-path":
+                # filed where a script path spend reads it, and accepted by both interpreters in the witness it belongs to
+                filed = psbt.inputs[0].taproot_script_spend_signatures.get(verkey + leaf_hash)
+                want_filed = sig64 + (bytes([sht]) if sht else b"")
+                if filed != want_filed:
+                    fail("musig-psbt:script-path-signature-misfiled", f"PSBT_IN_TAP_SCRIPT_SIG holds {filed!r}", signature=sig64.hex())
+                    continue
+                mtx = cm.parse_tx(psbt.tx.serialize(include_witness=False))
+                mtx.vin[0].witness = [want_filed, leaf_script, control]
+                res = cm.run(b"", spk, mtx.vin[0].witness, cm.ALL_FLAGS, cm.Checker(mtx, 0, amount, [cm.TxOut(amount, spk)]))
+                ctx.mon("musig-psbt:core-model-accepts")
+                if res != "OK":
+                    fail("musig-psbt:core-model-rejects-the-spend", f"Core model says {res} for the script path spend", witness=[x.hex() for x in mtx.vin[0].witness])
+                ltx = Tx.parse(mtx.ser(True))
+                o = outcome(verify_input, spent[1], ltx, 0)
+                ctx.mon("musig-psbt:engine-accepts")
+                if o[0] == "raise":
+                    fail("musig-psbt:engine-rejects-the-spend", f"verify_input refuses the MuSig2 script path spend: {o[1]!r}", tx=mtx.ser(True).hex())
+                ctx.case("musig-psbt:script-path", (mode, tuple(idx), sort, sig64), sample={k_: d[k_] for k_ in ("mode", "secret_keys", "sorted")})
+                ctx.classes[f"musig-psbt:signers:{k}"] += 1
+                continue
             o = outcome(lambda: extract_tx(finalize(psbt)))
             if o[0] == "raise":
                 fail(f"musig-psbt:finalize-raised:{_exc_tag(o[1])}", f"finalize / extract_tx raised {o[1]!r}")
